@@ -163,18 +163,16 @@ int _GD_GzipClose(struct gd_raw_file_ *file)
 
   dtrace("%p", file);
 
+  /* gzclose releases the gzFile whether or not it reports an error, so the
+   * file must be forgotten in either case */
   ret = gzclose((gzFile)file->edata);
-  if (ret) {
-    dreturn("%i", ret);
-    return ret;
-  }
 
   file->idata = -1;
   file->edata = NULL;
   file->mode = 0;
 
-  dreturn("%i", 0);
-  return 0;
+  dreturn("%i", ret);
+  return ret;
 }
 
 off64_t _GD_GzipSize(int dirfd, struct gd_raw_file_ *file, gd_type_t data_type,
